@@ -637,6 +637,26 @@ example : categoricalImportChecked demoCats [demoChunk, demoChunk] [] = .error (
   (categorical_property demoCats (by decide) _ _ (.cons demo_encodes (.cons demo_encodes .nil))).2 ⟨[], by decide, by decide⟩
 example : categoricalImportChecked (([], 9) :: demoCats) [demoChunk, demoChunk] [] = .ok [2, 9, 3, 2, 9, 3] := by
   rw [categorical_import_checked (([], 9) :: demoCats) (by decide) _ _ (.cons demo_encodes (.cons demo_encodes .nil))]; rfl
+-- `firstNoKey`: in `ab`, ``, `abc` against `demoCats` the empty cell (row 1) is the first that is no key
+example : firstNoKey demoCats [[97, 98], [], [97, 98, 99]] = some 1 ∧ firstNoKey (([], 9) :: demoCats) [[97, 98], [], [97, 98, 99]] = none := by
+  decide
+example : ∃ pre x post, [[97, 98], [], [97, 98, 99]] = pre ++ x :: post ∧ pre.length = 1 ∧ x ∉ demoCats.map (·.1) ∧
+    ∀ cell ∈ pre, cell ∈ demoCats.map (·.1) :=
+  (first_unmatched_is_first demoCats [[97, 98], [], [97, 98, 99]]).2 1 (by decide)
+example : catColumn (([], 9) :: demoCats) [[97, 98], [], [97, 98, 99]] = some [2, 9, 3] ∧
+    catColumn demoCats [[97, 98], [], [97, 98, 99]] = none := by decide
+example : (∃ cell ∈ [[97, 98], [], [97, 98, 99]], cell ∉ demoCats.map (·.1)) :=
+  ((catColumn_spec demoCats (by decide) [[97, 98], [], [97, 98, 99]]).2).mp (by decide)
+-- both branches of `categorical_property` are inhabited: with `` listed every cell is a key, without it the empty cell is none
+example : ∀ cell ∈ [[[97, 98], [], [97, 98, 99]], [[97, 98], [], [97, 98, 99]]].flatten, cell ∈ ((([], 9) : Bytes × Int) :: demoCats).map (·.1) := by
+  decide
+-- two chunkings of the same six cells (`demoChunk` twice / a chunk without rows in between) give the same result
+def emptyChunk : Chunk := { inds := [0], vals := [], off := 0, cap := 0, rows := 0, col := 0, ncols := 1 }
+example : categoricalImportChecked demoCats [demoChunk, demoChunk] [] = categoricalImportChecked demoCats [demoChunk, emptyChunk, demoChunk] [] :=
+  categorical_chunking_unobservable demoCats (by decide) _ _ [[[97, 98], [], [97, 98, 99]], [[97, 98], [], [97, 98, 99]]]
+    [[[97, 98], [], [97, 98, 99]], [], [[97, 98], [], [97, 98, 99]]]
+    (.cons demo_encodes (.cons demo_encodes .nil))
+    (.cons demo_encodes (.cons ⟨rfl, ⟨0, by simp [EncFrom, emptyChunk], by decide⟩, by decide⟩ (.cons demo_encodes .nil))) rfl
 example : EncodesAll [demoChunk, demoChunk] [[[97, 98], [], [97, 98, 99]], [[97, 98], [], [97, 98, 99]]] :=
   .cons demo_encodes (.cons demo_encodes .nil)
 example : leakyImport [([97], 1), ([97, 98, 99], 7)] [demoChunk, demoChunk] LeakyState.init
